@@ -91,8 +91,19 @@ pub fn gen_macro_case(g: &mut G) -> Value {
             p.rename = Some("PatchedName".into());
         }
         if der {
-            inner.push("derives = [PartialEq]".to_string());
-            p.derives.push("PartialEq".into());
+            // a patch may name a derive again that is requested for every type, under the same path
+            let multi = ds.iter().find(|d| d.contains("::")).cloned();
+            match multi {
+                Some(d) if g.chance(1, 2) => {
+                    inner.push(format!("derives = [{d}, PartialEq]"));
+                    p.derives.push(syn::parse_str::<syn::Path>(d).unwrap().to_token_stream().to_string());
+                    p.derives.push("PartialEq".into());
+                }
+                _ => {
+                    inner.push("derives = [PartialEq]".to_string());
+                    p.derives.push("PartialEq".into());
+                }
+            }
         }
         opts.push(format!("patch = {{ PatchMe = {{ {} }} }}", inner.join(", ")));
         s.patch.insert("PatchMe".into(), p);
